@@ -180,7 +180,17 @@ def compare(ctx, name, d):
         for i, (op, exp, got) in enumerate(zip(fo, fe, fg)):
             exp = exp.rstrip("\n"); got = got.rstrip("\n"); op = op.rstrip("\n")
             cls, prop, want = exp.split(" ", 2)
-            if cls == "corr":
+            if cls == "near":
+                ncorr += 1
+                meas, tol = [float(x) for x in want.split()]
+                try:
+                    model = float(got.split()[1])
+                    okn = abs(model - meas) <= tol
+                except Exception:
+                    okn = False
+                if not okn:
+                    corr_bad.append((prop, op, f"measured expiry {meas} ms (tolerance {tol})", got))
+            elif cls == "corr":
                 ncorr += 1
                 if got != want:
                     corr_bad.append((prop, op, want, got))
